@@ -850,11 +850,13 @@ def kernel_legs(tier):
                    bound='stabilizer_expect (whole group, all 4 observable phases) and vectorizable_stabilizer_expect (%s): same tableau set as k_trace' % (
                        'every string once, phase rotating with string and tableau index' if q else 'whole group, all 4 phases')))
     en = []
-    for N in ((1, 2) if q else (1, 2, 3)):
+    for N in (1, 2, 3):
         tot = len(_stab_lists(N))
+        if q and N == 3:
+            tot = 1 + 63 + len(dom.commuting_lists(3, 2))      # quick: the mixed N=3 lists (length <= 2); pure N=3 lists in the thorough tier
         en += [[N, lo, min(lo + 40, tot)] for lo in range(0, tot, 40)]
     out.append(Leg('k_entropy', fn_k_entropy, en, chunk=2,
-                   bound='stabilizer_entropy: all ordered independent commuting lists of length 0..N, N<=%d, x all 2^N boolean masks' % (2 if q else 3)))
+                   bound='stabilizer_entropy: all ordered independent commuting lists of length 0..N x all 2^N boolean masks, N<=%s' % ('2, and N=3 lists of length <= 2 (mixed states)' if q else '3')))
     zi = []
     shapes = [(1, 1), (1, 2), (2, 1), (2, 2), (2, 3), (3, 2), (3, 3), (2, 4), (4, 2)] + ([] if q else [(3, 4), (4, 3), (4, 4)])
     for nr, nc in shapes:
@@ -1739,6 +1741,12 @@ def legs(tier):
         if q and N == 2:
             # quick tier: three-gate programs over the first 5 letters (three layers need three overlapping gates)
             pr += [[N] + list(w) for w in itertools.product(range(min(5, na)), repeat=3)]
+    # four-gate programs at N=3 over CX01, S1, M02, X2 (and H0): a gate sinks into a non-first layer beside another gate, a later gate overlaps only it
+    pr4 = [[3] + list(w) for w in itertools.product((3, 1, 5, 2), repeat=4)]
+    if not q:
+        pr4 += [[3] + list(w) for w in itertools.product((0, 1, 2, 3, 5), repeat=4) if 0 in w]
+    out.append(Leg('c_circ_len4', fn_c_circ, pr4, chunk=2, timeout=3000,
+                   bound='the same configurations for all 4-gate programs over the 4 letters CX01, S1, M02, X2 at N=3%s' % ('' if q else ' and over the 5 letters with H0')))
     out.append(Leg('c_circ', fn_c_circ, pr, chunk=2, timeout=3000,
                    bound='gate / layer / circuit forward and backward on the full string list and 3 states, configurations plain / copy / compiled / '
                          'copy-of-compiled / composed at every cut: all programs of length <=%s over 8 letters (N=2) and <=2 over 12 letters (N=3)%s' % (2 if q else 3, '; plus all 125 three-gate programs over the first 5 letters at N=2' if q else '')))
